@@ -21,7 +21,23 @@ pub fn gen_object(t: &mut Tape) -> Option<GenObj> {
         // single file
         let (prog, info) = gen_wellformed(t, &ProgCfg { max_stmts: 20, huge: true, ..ProgCfg::default() });
         let plain = t.chance(1, 6);
-        let rendered = render(&prog, t, RenderOpts { plain, wild_comments: true });
+        let mut rendered = render(&prog, t, RenderOpts { plain, wild_comments: true });
+        if t.chance(1, 25) {
+            // a source longer than 64 KiB: label positions beyond 65535
+            let pad = format!(";{}\n", "p".repeat(66_000 + t.pick(3000)));
+            for l in rendered.layout.iter_mut() {
+                l.nucleus = l.nucleus.start + pad.len()..l.nucleus.end + pad.len();
+                for r in l.labels.iter_mut() {
+                    *r = r.start + pad.len()..r.end + pad.len();
+                }
+                if let Some(r) = l.operand_label.as_mut() {
+                    *r = r.start + pad.len()..r.end + pad.len();
+                }
+                l.line += 1;
+            }
+            rendered.text = format!("{pad}{}", rendered.text);
+            traits.insert("source-longer-than-64KiB");
+        }
         let model = asm_model(&prog);
         if !model.ok() {
             return None;
@@ -60,7 +76,8 @@ pub fn gen_object(t: &mut Tape) -> Option<GenObj> {
                 _ => {}
             }
         }
-        Some(GenObj { obj, desc: json!({"kind": "assembled", "debug": debug, "source": f.rendered.text}), traits })
+        let shown = if f.rendered.text.len() > 4000 { format!("<{} bytes of comment padding>\n{}", f.rendered.text.len() - 2000, &f.rendered.text[f.rendered.text.len() - 2000..]) } else { f.rendered.text.clone() };
+        Some(GenObj { obj, desc: json!({"kind": "assembled", "debug": debug, "source": shown}), traits })
     } else {
         let files = gen_link_set(t, &LinkCfg { max_files: 3, conflict_8: 0, overlaps: false, wild_render: true });
         if files.len() < 2 {
